@@ -34,7 +34,7 @@ ASSUMPTIONS = [
     'index entry payload length is not compared (documented as including pad bytes)',
 ] + c01.ASSUMPTIONS[1:]
 PROBES = ['two_indexes_interleaved', 'index_on_path', 'restart', 'restart_replaced', 'cross1', 'cross2', 'cross_ge3', 'cross_vr', 'len0', 'len_rest', 'len_beyond', 'off_beyond', 'same_twice', 'descending',
-          'after_failing', 'after_scan', 'fetch_pos', 'validate', 'encrypted_fetch', 'seq_disagrees_with_model', 'multi_vr_fetch']
+          'after_failing', 'after_scan', 'fetch_pos', 'validate', 'encrypted_fetch', 'multi_vr_fetch']
 
 File = Index = None
 
